@@ -170,6 +170,21 @@ func runC11(r *run) {
 		for i := 0; i < 40; i++ {
 			emit(caseT{"realloaders", []string{fmt.Sprint(i)}})
 		}
+		// an optional file that EXISTS but cannot be compiled or executed - it refers to a missing
+		// file in turn, in each way a file can refer to another - is an error, not "nothing"
+		for _, inner := range []string{"B{% include \"gone.tpl\" %}", "{% extends \"gone.tpl\" %}", "{% import \"gone.tpl\" m %}B", "B{% ssi \"gone.tpl\" parsed %}", "B{% ssi \"gone.tpl\" %}", "B{% set n = \"gone.tpl\" %}{% include n %}",
+			"B{% include \"mid.tpl\" %}", "B{% include \"gone.tpl\" if_exists %}!", "B{% if %}"} {
+			for _, outer := range []string{"[{% include \"b.tpl\" if_exists %}]", "{% set n = \"b.tpl\" %}[{% include n if_exists %}]", "[{% include \"b.tpl\" if_exists with q=1 only %}]", "[{% include \"wrap.tpl\" if_exists %}]"} {
+				w := &world{files: []map[string]string{{"b.tpl": inner, "mid.tpl": "M{% include \"gone.tpl\" %}", "wrap.tpl": "W{% include \"b.tpl\" if_exists %}", "main.tpl": outer}}}
+				want := "error"
+				if strings.Contains(inner, "gone.tpl\" if_exists") {
+					want = "ok"
+				}
+				emit(caseT{"optbroken", append(w.args("main.tpl", nil), "-", "-", want)})
+				ws := &world{files: []map[string]string{{"b.tpl": inner, "mid.tpl": "M{% include \"gone.tpl\" %}", "wrap.tpl": "W{% include \"b.tpl\" if_exists %}"}}}
+				emit(caseT{"optbroken", append(ws.args(outer, nil), "-", "-", want+":string")})
+			}
+		}
 		// several compilations (and lazy includes) of templates of ONE set at the same time that
 		// reference the same files: each gives what it gives alone
 		for i := 0; i < 12; i++ {
@@ -468,6 +483,27 @@ func execC11(r *run, c caseT) {
 	}
 	if c.op == "missingrel" {
 		execMissingRel(r, c)
+		return
+	}
+	if c.op == "optbroken" {
+		w, name, ctx := worldFromArgs(c.args)
+		isFile := !strings.HasSuffix(c.args[9], ":string")
+		o, b := w.render(name, isFile, ctx)
+		obs := o.obs + "#" + strings.Join(b.seq, ",")
+		op := "loadlog"
+		if !isFile {
+			op = "render"
+			obs = o.obs
+		}
+		id := r.emit(op, c.args, obs)
+		r.nontrivial(c.args[0] + c.args[2])
+		wantErr := strings.HasPrefix(c.args[9], "error")
+		if wantErr && o.err == nil {
+			r.reject(id, "an optional file that exists but refers to a missing one was rendered as if it were not there", map[string]any{"files": w.files, "entry": name, "observed": o.obs})
+		}
+		if !wantErr && o.err != nil {
+			r.reject(id, "a file with an optional reference to a missing file does not render", map[string]any{"files": w.files, "entry": name, "observed": o.obs})
+		}
 		return
 	}
 	if c.op == "realloaders" {
